@@ -164,11 +164,15 @@ func (s *Session) report(id string, cfg *CheckConfig, dev bool, t0 time.Time, lo
 		os.MkdirAll(vdir, 0o755)
 		u := failedUnit[i]
 		var rr *ReplayResult
-		if u.Con != nil && u.Con.Replay != "" { // also for anchor/binding failures: the corpus of the template is searched
+		if u.Con != nil && u.Con.replayFor(o.Name) != "" { // also for anchor/binding failures: the corpus of the template is searched
+			tn := u.Con.replayFor(o.Name)
 			if prev, ok := replayed[u.Key]; ok && prev >= 2 {
-				rr = &ReplayResult{Template: u.Con.Replay, Note: "replay skipped: two obligations of this function were already replayed in this run"}
+				rr = &ReplayResult{Template: tn, Note: "replay skipped: two obligations of this function were already replayed in this run"}
 			} else {
-				rr = s.tryReplay(u, o)
+				uc, cc := *u, *u.Con
+				cc.Replay = tn
+				uc.Con = &cc
+				rr = s.tryReplay(&uc, o)
 				replayed[u.Key]++
 			}
 		}
